@@ -312,6 +312,60 @@ def rnd7(p, res, eng, kernels):
             res.bad("RND-7", f.pretty, "anchor-lost:noise-site", "no noise site found in kernel")
 
 
+def rnd8(p, res):
+    """fixed-Hamming-weight samplers (`fill_*_hw`): the first `hw` slots are set before the shuffle and must all be non-zero, otherwise the weight of the secret / of the
+    public-key ephemeral is a random variable (a binary sampler that stores `next_u32() & 1` has weight Binomial(hw, 1/2), weight 0 with probability 2^-hw)"""
+    from .sym import Poly
+    n = 0
+    for f in sorted(p.lib_fns(), key=lambda x: x.uid):
+        if f.kind == "Closure" or not f.uid.startswith("poulpy_hal::layouts::scalar_znx") or not (f.name.startswith("fill_") and f.name.endswith("_hw")):
+            continue
+        n += 1
+        verdict = None
+        detail = None
+        # (a) slots set by a closure `|x| *x = expr`
+        for cl in p.closures_of(f):
+            sym = Sym(cl, Flow(cl))
+            for blk in cl.blocks:
+                for st in blk["s"]:
+                    if st[0] == "A" and len(st[1]) == 2 and st[1][1] == "*" and 1 < st[1][0] <= cl.argc and st[2]["k"] in ("Use", "Cast"):
+                        v = sym.operand(st[2]["o"][0])
+                        bits = [a for a in v.atoms() if a[0] == "f" and a[1] == "BitAnd"]
+                        others = [a for a in v.atoms() if a not in bits]
+                        if others or len(bits) > 1:
+                            continue
+                        zero_for = []
+                        for b in (0, 1):
+                            tot = 0
+                            for mono, c in v.t.items():
+                                val = c
+                                for a in mono:
+                                    val *= b
+                                tot += val
+                            if tot == 0:
+                                zero_for.append(b)
+                        verdict = not zero_for
+                        detail = "slot value = %r with the random bit in {0, 1}: zero for bit = %s" % (v, zero_for)
+        # (b) slots set by `fill(c)` on a prefix slice
+        if verdict is None:
+            sym = Sym(f, Flow(f))
+            for bi, t in f.calls():
+                if (f.callee_def(t) or {}).get("n") == "fill" and len(t["a"]) == 2:
+                    c = sym.operand(t["a"][1])
+                    if c.is_const() and c.const_value() not in (None, 0):
+                        verdict = True
+                        detail = "slots filled with the constant %s" % c.const_value()
+        if verdict is None:
+            res.undec("RND-8", "%s: slot initialisation not recognised" % f.pretty)
+        elif verdict:
+            res.ok("RND-8", {"fn": f.pretty, "slots": detail})
+        else:
+            res.bad("RND-8", f.pretty, "weight-slot-may-be-zero",
+                    "%s documents a fixed Hamming weight but %s - the sampled weight is random (for hw = 1 the result is all-zero half of the time: a public-key encryption whose "
+                    "ephemeral secret is zero is the bare error)" % (f.pretty, detail), site=f.where())
+    return n
+
+
 def run(res, tier):
     res.level = "other"
     res.explanation = ("Call discipline behind C06, decided on MIR with an interprocedural role inference over `&mut Source` / seed values: every routine whose streams reach a mask or "
@@ -324,6 +378,7 @@ def run(res, tier):
     res.rule("RND-4", "no entropy source other than Source in library code")
     res.rule("RND-6", "in every noise kernel the radix handed to the noise sink, the mask sink and the result normalisation is one and the same value")
     res.rule("RND-7", "after the noise sink has added the error to a buffer, nothing plainly overwrites that buffer (store that is not read-modify-write, zero/fill/copy, overwrite-type HAL op, including inside later closures) before it is consumed")
+    res.rule("RND-8", "fixed-Hamming-weight samplers set each of their hw slots to a value that is non-zero for every value of the random bit")
     res.rule("RND-5", "HashMap iteration flows into an order-insensitive consumer or is sorted before use")
     res.assumptions = ["noise/mask sink implementations (sampling kernels) are as documented (C01/C10 territory)", "do-while abstraction: an encryption over zero rows/columns writes no cell"]
     cfgs = ["avx-dev"] if tier == "quick" else ["avx-dev", "ref-dev", "avx-nodbg"]
@@ -335,6 +390,8 @@ def run(res, tier):
         res.extra["role_fixpoint_rounds"] = rounds
         res.fn_count += len(eng.fns)
         inj, inj_info, cfgs_cache = noise_injecting(p, eng)
+        n8 = rnd8(p, res)
+        res.floor("RND-8", "fixed-weight samplers", n8, 2)
 
         # ---------------- RND-1
         n1 = 0
